@@ -26,6 +26,7 @@ import (
 	"github.com/lestrrat-go/jwx/v2/jws"
 	v2 "github.com/nuts-foundation/nuts-node/vcr/pe/schema/v2"
 	"strings"
+	"time"
 
 	"github.com/PaesslerAG/jsonpath"
 	"github.com/dlclark/regexp2"
@@ -34,6 +35,47 @@ import (
 
 // ErrUnsupportedFilter is returned when a filter uses unsupported features.
 var ErrUnsupportedFilter = errors.New("unsupported filter")
+
+// patternMatchTimeout is the maximum time matching a single value against a filter pattern may take.
+const patternMatchTimeout = time.Second
+
+// UnmarshalJSON unmarshals a PresentationDefinition. It rejects null entries in input_descriptors and submission_requirements:
+// these lists hold pointers, so a JSON null would otherwise surface as a nil pointer dereference when the definition is used.
+func (presentationDefinition *PresentationDefinition) UnmarshalJSON(data []byte) error {
+	type alias PresentationDefinition
+	var result alias
+	if err := json.Unmarshal(data, &result); err != nil {
+		return err
+	}
+	for _, inputDescriptor := range result.InputDescriptors {
+		if inputDescriptor == nil {
+			return errors.New("presentation definition: input_descriptors contains null")
+		}
+	}
+	for _, submissionRequirement := range result.SubmissionRequirements {
+		if submissionRequirement == nil {
+			return errors.New("presentation definition: submission_requirements contains null")
+		}
+	}
+	*presentationDefinition = PresentationDefinition(result)
+	return nil
+}
+
+// UnmarshalJSON unmarshals a SubmissionRequirement. It rejects null entries in from_nested (see PresentationDefinition.UnmarshalJSON).
+func (submissionRequirement *SubmissionRequirement) UnmarshalJSON(data []byte) error {
+	type alias SubmissionRequirement
+	var result alias
+	if err := json.Unmarshal(data, &result); err != nil {
+		return err
+	}
+	for _, nested := range result.FromNested {
+		if nested == nil {
+			return errors.New("submission requirement: from_nested contains null")
+		}
+	}
+	*submissionRequirement = SubmissionRequirement(result)
+	return nil
+}
 
 // ParsePresentationDefinition validates the given JSON and parses it into a PresentationDefinition.
 // It returns an error if the JSON is invalid or doesn't match the JSON schema for a PresentationDefinition.
@@ -531,11 +573,18 @@ func matchFilter(filter Filter, value interface{}) (bool, interface{}, error) {
 	}
 
 	if filter.Pattern != nil && filter.Type == "string" {
+		stringValue, isString := value.(string)
+		if !isString {
+			// e.g. an array none of whose elements matched the pattern
+			return false, nil, nil
+		}
 		re, err := regexp2.Compile(*filter.Pattern, regexp2.ECMAScript)
 		if err != nil {
 			return false, nil, err
 		}
-		match, err := re.FindStringMatch(value.(string))
+		// patterns come from (remote) presentation definitions; regexp2 backtracks, so bound the time a single match may take.
+		re.MatchTimeout = patternMatchTimeout
+		match, err := re.FindStringMatch(stringValue)
 		if err != nil {
 			return false, nil, err
 		}
